@@ -1,8 +1,8 @@
-import vlib, props, semcheck
+"""C04 -- lexical scoping and isolation.  Session families judged by CalcSem (TLC); in addition the tree produced by the
+real symbol-table rewriter for every statement of those sessions (and of random sessions) must be the tree CalcSem's
+static-scoping rules give: storage class and frame slot of every name, slot count of every function (CalcScope.tla)."""
+import vlib, props, semcheck, scopecheck, gens
 from astlib import walk
-
-TITLE = {"C04": "for loops consume exactly what their iterators yield, lazily and in order",
-         "C03": "functions are pure: same arguments, same result, whatever happened before"}
 
 
 def run(tier, replay=None):
@@ -12,6 +12,9 @@ def run(tier, replay=None):
     fams = props.c04_families(tier, vlib.seed())
     vs = semcheck.run_families(ck, fams, props.c04_nontrivial)
     semcheck.binding_selftest(ck, vs)
+    scoped = [s for fam in fams for s in fam[1]] + gens.random_sessions(150 if tier == "quick" else 3000, vlib.seed(), "c04scope", first_id=7000000)
+    for desc, case in scopecheck.validate(ck, scoped, "the rewriter's tree = CalcSem's static scoping (CalcScope.tla), statement by statement"):
+        ck.violation(desc, case)
     ck.cov["rule"] = props.c04_rule
     ck.assumptions += ["CalcSem.tla as evaluated by TLC is the oracle; Unspecified sessions are only checked for no-crash"]
     return ck.finish()
